@@ -141,7 +141,8 @@ class TypeGen:
             choices += [("alias", 3), ("interface", 3), ("paren", 1)]
             if len(props) >= 2:
                 choices += [("intersection", 3), ("iface-merge", 2), ("iface-extends", 2), ("iface-merge-extends", 2), ("iface-extends-util", 2)]
-            if props and all(p.optional for p in props if p.kind != "getter") and all(p.kind != "getter" for p in props):
+            # (getters included: under Partial the property a getter signature declares is optional too - the oracle reads the type as written)
+            if props and all(p.optional for p in props if p.kind != "getter"):
                 choices += [("Partial", 3)]
             if props and all(not p.optional for p in props):
                 choices += [("Required", 3)]
@@ -200,7 +201,7 @@ class TypeGen:
             cut = 1 + r.below(len(props) - 1)
             own, base = props[:cut], props[cut:]
             forms = ["Pick", "Omit"]
-            if all(p.optional and p.kind != "getter" for p in base):
+            if all(p.optional or p.kind == "getter" for p in base):
                 forms.append("Partial")
             if all(not p.optional for p in base):
                 forms.append("Required")
@@ -286,7 +287,7 @@ def _encode_reuse(self, props, depth, allow_after):
     wrappers, dprops = [], []
     for part in parts:
         w = "none"
-        if all(p.optional and p.kind != "getter" for p in part) and r.chance(0.6):
+        if all(p.optional or p.kind == "getter" for p in part) and r.chance(0.6):
             w = "Partial"
         elif all(not p.optional for p in part) and r.chance(0.6):
             w = "Required"
